@@ -18,12 +18,13 @@
 
 using namespace mc;
 const char *mc_id = "C17";
-const char *mc_rule = "input grid: byte strings (alphabet a b SP NUL \" \\ # for content dependent functions, position labels for data-oblivious ones) "
+const char *mc_rule = "input grid: byte strings (alphabet a b SP NUL \" \\ # (+ LF for the search functions) for content dependent functions, position labels for data-oblivious ones) "
                       "x all compositions into fragments x up to E inserted zero-length fragments x {iovec list, message with inline first part} "
                       "x all op arguments; oracle = same library function on the one-fragment form; "
                       "nontrivial = distinct (input, fragmentation, form) cases with at least two fragments (a boundary has to be crossed)";
 
-static const uint8_t ALPHA[7] = {'a', 'b', ' ', 0, '"', '\\', '#'};
+// the search group uses all 8 symbols (newline ends a comment in mpt_memtok), the argument splitter group the first 7
+static const uint8_t ALPHA[8] = {'a', 'b', ' ', 0, '"', '\\', '#', '\n'};
 static const uint8_t FILL = 0xEE;
 
 // ------------------------------------------------------------------ helpers
@@ -183,7 +184,7 @@ struct Case {
 	else if (!eq_) c.fail(fn, icls, acls, "wrong-result", std::string(desc) + " on " + c.where() + ": " + k.diff()); } while (0)
 
 // ------------------------------------------------------------------ path counters (vacuity)
-struct Paths { uint64_t nontrivial, beyond_first, tok_comment_cross, trim_cross, quote_cross, read_cross, argv_multi, array_args, memcpy_both, memcpy_partial, append_multi, qget_two, with_empty, inline_form, list_form; };
+struct Paths { uint64_t nontrivial, beyond_first, tok_comment_cross, tok_newline_cross, trim_cross, quote_cross, read_cross, argv_multi, array_args, memcpy_both, memcpy_partial, append_multi, qget_two, with_empty, inline_form, list_form; };
 static Paths P;
 
 // ------------------------------------------------------------------ search functions on iovec lists
@@ -192,7 +193,7 @@ static int p_eq(int ch, void *p) { return ch == *(int *) p; }
 static int p_always(int, void *) { return 1; }
 static int p_never(int, void *) { return 0; }
 
-static const uint8_t TOKS[8] = {'a', 'b', ' ', 0, '"', '\\', '#', 'z'};
+static const uint8_t TOKS[9] = {'a', 'b', ' ', 0, '"', '\\', '#', '\n', 'z'};
 struct Set { const char *p; size_t n; const char *name; };
 static const Set SETS[] = { {"", 0, "empty"}, {"a", 1, "a"}, {"ab", 2, "ab"}, {" \0", 2, "SP,NUL"}, {"#\"", 2, "#,\""}, {"z", 1, "absent"} };
 static const char *TTOK[] = {0, "", "a", " ", "ab "};
@@ -205,7 +206,7 @@ static void ops_search(Case &c, Sink &k, const struct iovec *v, size_t nv)
 	Run &r = c.r;
 	size_t first = nv ? v[0].iov_len : 0;
 	r.hint("mpt_memchr");
-	for (int t = 0; t < 8; ++t) {
+	for (int t = 0; t < 9; ++t) {
 		int tok = TOKS[t];
 		ssize_t ret = mpt::mpt_memchr(v, nv, tok);
 		if (!c.isref && nv > 1 && ret >= (ssize_t) first && first) ++P.beyond_first;
@@ -237,6 +238,12 @@ static void ops_search(Case &c, Sink &k, const struct iovec *v, size_t nv)
 			// a comment was skipped whose start lies in an earlier fragment than the hit
 			size_t fend = 0, fi = 0; while (fi < nv && fend + v[fi].iov_len <= (size_t) ret) fend += v[fi++].iov_len;   // fend = start of hit fragment
 			for (size_t p = 0; p < fend && p < c.n; ++p) if (c.s[p] == '#') { ++P.tok_comment_cross; break; }
+			// ... and the comment was ended by a newline that sits in a later fragment than its '#'
+			bool hit = false; size_t fs = 0;
+			for (size_t a = 0; a < nv && !hit; fs += v[a++].iov_len)
+				for (size_t p = fs; p < fs + v[a].iov_len && !hit; ++p) if (c.s[p] == '#')
+					for (size_t q = fs + v[a].iov_len; q < (size_t) ret; ++q) if (c.s[q] == '\n') { hit = true; break; }
+			if (hit) ++P.tok_newline_cross;
 		}
 		k.begin(); k.num(ret);
 		CLOSE("mpt_memtok", "", std::string(tok ? "token" : "visible") + (com ? ",comments" : "") + (esc ? ",escapes" : ""), fmt("mpt_memtok(tok=%s,com=%s,esc=%s)", nn(tok), nn(com), nn(esc)));
@@ -364,8 +371,9 @@ void mc_jobs(Tier t, std::vector<std::string> &jobs)
 	Bounds b = bounds(t);
 	// big jobs first
 	for (const char *g : {"argv", "search"}) for (size_t n = b.Lstr; n >= 4 && n <= b.Lstr; --n) {
-		if (n >= 5) { for (int p = 0; p < 7; ++p) for (int q = 0; q < 7; ++q) jobs.push_back(fmt("%s/n=%zu/p=%d%d", g, n, p, q)); }
-		else for (int p = 0; p < 7; ++p) jobs.push_back(fmt("%s/n=%zu/p=%d", g, n, p));
+		int A = g[0] == 's' ? 8 : 7;
+		if (n >= 5) { for (int p = 0; p < A; ++p) for (int q = 0; q < A; ++q) jobs.push_back(fmt("%s/n=%zu/p=%d%d", g, n, p, q)); }
+		else for (int p = 0; p < A; ++p) jobs.push_back(fmt("%s/n=%zu/p=%d", g, n, p));
 	}
 	for (size_t n = b.Lread + 1; n-- > 0;) jobs.push_back(fmt("read/n=%zu", n));
 	for (size_t n = b.Lcpy + 1; n-- > 0;) jobs.push_back(fmt("memcpy/n=%zu", n));
@@ -394,8 +402,9 @@ static void body_string(Run &r, const std::string &job, Ctx &x, bool search)
 	size_t n = jobnum(job, "n=");
 	uint8_t s[16]; size_t fixed = 0;
 	size_t pp = job.find("p=");
-	if (pp != std::string::npos) for (const char *d = job.c_str() + pp + 2; *d >= '0' && *d <= '6' && fixed < n; ++d) s[fixed++] = ALPHA[*d - '0'];
-	if (n > fixed) { size_t m = 1; for (size_t i = fixed; i < n; ++i) m *= 7; size_t v = x.choose(m); for (size_t i = n; i-- > fixed;) { s[i] = ALPHA[v % 7]; v /= 7; } }
+	const size_t A = search ? 8 : 7;
+	if (pp != std::string::npos) for (const char *d = job.c_str() + pp + 2; *d >= '0' && *d <= '7' && fixed < n; ++d) s[fixed++] = ALPHA[*d - '0'];
+	if (n > fixed) { size_t m = 1; for (size_t i = fixed; i < n; ++i) m *= A; size_t v = x.choose(m); for (size_t i = n; i-- > fixed;) { s[i] = ALPHA[v % A]; v /= A; } }
 	size_t ci = x.choose(ncomp(n));
 	static std::vector<size_t> parts, lens;
 	composition(n, ci, parts);
@@ -413,7 +422,9 @@ static void body_string(Run &r, const std::string &job, Ctx &x, bool search)
 		refjob = job; refn = n; memcpy(refs, s, n); c.isref = false;
 	}
 	bool quote = false; for (size_t i = 0; i < n; ++i) if (s[i] == '"') quote = true;
-	for (const std::vector<uint8_t> &z : zero_places(parts.size(), b.E)) {
+	// at the longest thorough length only one empty fragment is inserted (two up to length 5)
+	int E = n > 5 ? 1 : b.E;
+	for (const std::vector<uint8_t> &z : zero_places(parts.size(), E)) {
 		with_zeros(parts, z, lens);
 		f.build(s, lens);
 		if (r.replaying) r.note("input %s cut as %s", show(s, n).c_str(), show_cut(s, lens).c_str());
@@ -421,7 +432,7 @@ static void body_string(Run &r, const std::string &job, Ctx &x, bool search)
 			c.form = "iovec list"; k.start_cmp();
 			ops_search(c, k, f.vec, f.nv);
 			count_case(r, lens, 1); ++P.list_form;
-			if (lens.size() == 3 && n == 3 && lens[1] == 0) r.sample("search: " + show_cut(s, lens) + " x {memchr/memrchr 8 tokens, memfcn/memrfcn 6 predicates, memstr/memrstr 6 sets, memtok 45 (tok,com,esc) combinations} vs " + show(s, n));
+			if (lens.size() == 3 && n == 3 && lens[1] == 0) r.sample("search: " + show_cut(s, lens) + " x {memchr/memrchr 9 tokens, memfcn/memrfcn 6 predicates, memstr/memrstr 6 sets, memtok 45 (tok,com,esc) combinations} vs " + show(s, n));
 			continue;
 		}
 		size_t first = 0; for (size_t l : lens) if (l) { first = l; break; }
@@ -653,14 +664,14 @@ void mc_explore(Run &r, const std::string &job)
 {
 	memset(&P, 0, sizeof P);
 	const char *req[] = {"nontrivial", "cases_with_zero_length_fragment", "form_inline_first_part", "form_pure_iovec_list", "search_hit_beyond_first_fragment",
-	                     "memtok_comment_started_in_earlier_fragment", "argv_space_at_fragment_end", "argv_quoted_input_fragmented", "argv_iterated_more_than_one_argument",
+	                     "memtok_comment_started_in_earlier_fragment", "memtok_comment_ended_by_newline_in_later_fragment", "argv_space_at_fragment_end", "argv_quoted_input_fragmented", "argv_iterated_more_than_one_argument",
 	                     "array_message_more_than_one_argument", "read_crossing_fragment_boundary", "memcpy_source_and_target_fragmented", "memcpy_open_length_partial",
 	                     "append_multi_fragment", "qget_two_part_message"};
 	for (const char *q : req) r.require(q);
 	dfs(r, [&](Ctx &x) { body(r, job, x); });
 	r.count("nontrivial", P.nontrivial); r.count("cases_with_zero_length_fragment", P.with_empty);
 	r.count("form_inline_first_part", P.inline_form); r.count("form_pure_iovec_list", P.list_form);
-	r.count("search_hit_beyond_first_fragment", P.beyond_first); r.count("memtok_comment_started_in_earlier_fragment", P.tok_comment_cross);
+	r.count("search_hit_beyond_first_fragment", P.beyond_first); r.count("memtok_comment_started_in_earlier_fragment", P.tok_comment_cross); r.count("memtok_comment_ended_by_newline_in_later_fragment", P.tok_newline_cross);
 	r.count("argv_space_at_fragment_end", P.trim_cross); r.count("argv_quoted_input_fragmented", P.quote_cross);
 	r.count("argv_iterated_more_than_one_argument", P.argv_multi); r.count("array_message_more_than_one_argument", P.array_args);
 	r.count("read_crossing_fragment_boundary", P.read_cross);
